@@ -299,4 +299,419 @@ theorem C19_damping_outside_zone_3d (T : Transc K) (w : ℕ) (nz ny nx : ℤ) (d
 
 end Program3
 
+/-! ### program level (2D): the value claim -/
+
+section Value
+variable {B : Type} [DecidableEq B]
+
+/-- a call that multiplies `f` by a sine on its region -/
+def IsDamp (c : Call2 B ℝ) (f : B) : Prop :=
+  ∃ θ : Store2 B ℝ → ℤ → ℤ → ℝ, c.writes = [(f, fun s i j => s f i j * Real.sin (θ s i j))]
+
+theorem kernels_isDamp (w : ℕ) (dx c : ℝ) (f g : B) (r : Rect2) :
+    IsDamp (penaliseKernelXFront realTransc w dx c f g r) f ∧ IsDamp (penaliseKernelXBack realTransc w dx c f g r) f ∧
+    IsDamp (penaliseKernelYFront realTransc w dx c f g r) f ∧ IsDamp (penaliseKernelYBack realTransc w dx c f g r) f := by
+  rcases w with _ | _ | _ | _ | _ | _ | w <;> exact ⟨⟨_, rfl⟩, ⟨_, rfl⟩, ⟨_, rfl⟩, ⟨_, rfl⟩⟩
+
+theorem exec_write1 (c : Call2 B ℝ) (f : B) (W : Store2 B ℝ → F2 ℝ) (h : c.writes = [(f, W)]) (s : Store2 B ℝ) :
+    c.exec s f = applyK2 c.region (s f) (W s) ∧ ∀ b, b ≠ f → c.exec s b = s b := by
+  constructor
+  · simp [Call2.exec, h, Store2.set]
+  · intro b hb; simp [Call2.exec, h, Store2.set, hb]
+
+/-- effect of a damping call on the field: never larger in magnitude, unchanged outside its region -/
+theorem exec_damp (c : Call2 B ℝ) (f : B) (h : IsDamp c f) (s : Store2 B ℝ) :
+    (∀ i j, |c.exec s f i j| ≤ |s f i j|) ∧ (∀ i j, ¬ c.region.mem i j → c.exec s f i j = s f i j) ∧
+    (∀ b, b ≠ f → c.exec s b = s b) := by
+  obtain ⟨θ, hθ⟩ := h
+  obtain ⟨h1, h2⟩ := exec_write1 c f _ hθ s
+  refine ⟨?_, ?_, h2⟩
+  · intro i j
+    rw [h1]; simp only [applyK2]
+    split_ifs
+    · exact abs_mul_sin_le _ _
+    · exact le_rfl
+  · intro i j hn
+    rw [h1]; simp only [applyK2, if_neg hn]
+
+theorem exec_bcast (name : String) (f : B) (r : Rect2) (src : F2 ℝ → F2 ℝ) (s : Store2 B ℝ) :
+    (bcast2D name f r src).exec s f = applyK2 r (s f) (src (s f)) ∧ ∀ b, b ≠ f → (bcast2D name f r src).exec s b = s b :=
+  exec_write1 (bcast2D name f r src) f (fun s => src (s f)) rfl s
+
+/-- C19 (damping, 2D PROGRAM, value claim): for every width `w ≥ 1` with non-overlapping zones (`2w ≤ nx, ny`), if the
+incoming field is bounded by `M` on the four inner-edge lines of the zone (`j = w−1`, `j = nx−w`, `i = w−1`, `i = ny−w`),
+then after the damping program every cell of the zone is bounded by `M` — whatever the coordinate arrays, spacing and
+corner arguments are -/
+theorem C19_damping_zone_bounded_2d (w : ℕ) (hw : 1 ≤ w) (ny nx : ℤ) (hx : 2 * (w : ℤ) ≤ nx) (hy : 2 * (w : ℤ) ≤ ny)
+    (dx x0 x1 y0 y1 : ℝ) (f xg yg : B) (s : Store2 B ℝ) (M : ℝ)
+    (hM : ∀ i j, 0 ≤ i → i < ny → 0 ≤ j → j < nx → (j = w - 1 ∨ j = nx - w ∨ i = w - 1 ∨ i = ny - w) → |s f i j| ≤ M)
+    (i j : ℤ) (hi : 0 ≤ i ∧ i < ny) (hj : 0 ≤ j ∧ j < nx) (hzone : i < w ∨ ny - w ≤ i ∨ j < w ∨ nx - w ≤ j) :
+    |exec2 (penaliseBoundary2D realTransc w ny nx dx x0 x1 y0 y1 f xg yg) s f i j| ≤ M := by
+  have hw0 : w ≠ 0 := by omega
+  have hW : (1 : ℤ) ≤ (w : ℤ) := by exact_mod_cast hw
+  set W : ℤ := (w : ℤ) with hWdef
+  have hhx : headHi nx W = W := min_eq_left (by omega)
+  have htx : tailLo nx W = nx - W := max_eq_right (by omega)
+  have hhy : headHi ny W = W := min_eq_left (by omega)
+  have hty : tailLo ny W = ny - W := max_eq_right (by omega)
+  unfold penaliseBoundary2D
+  simp only [if_neg hw0, exec2_cons, exec2_nil]
+  obtain ⟨dXF, dXB, _, _⟩ := kernels_isDamp w dx x0 f xg (⟨0, ny, 0, headHi nx W⟩ : Rect2)
+  obtain ⟨_, dXB', _, _⟩ := kernels_isDamp w dx x1 f xg (⟨0, ny, tailLo nx W, nx⟩ : Rect2)
+  obtain ⟨_, _, dYF, _⟩ := kernels_isDamp w dx y0 f yg (⟨0, headHi ny W, 0, nx⟩ : Rect2)
+  obtain ⟨_, _, _, dYB⟩ := kernels_isDamp w dx y1 f yg (⟨tailLo ny W, ny, 0, nx⟩ : Rect2)
+  -- the eight stages
+  set t1 := (bcast2D "x_front" f ⟨0, ny, 0, headHi nx W⟩ (fun a i _ => a i (W - 1))).exec s with ht1
+  set t2 := (bcast2D "x_back" f ⟨0, ny, tailLo nx W, nx⟩ (fun a i _ => a i (nx - W))).exec t1 with ht2
+  set t3 := (penaliseKernelXFront realTransc w dx x0 f xg ⟨0, ny, 0, headHi nx W⟩).exec t2 with ht3
+  set t4 := (penaliseKernelXBack realTransc w dx x1 f xg ⟨0, ny, tailLo nx W, nx⟩).exec t3 with ht4
+  set t5 := (bcast2D "y_front" f ⟨0, headHi ny W, 0, nx⟩ (fun a _ j => a (W - 1) j)).exec t4 with ht5
+  set t6 := (bcast2D "y_back" f ⟨tailLo ny W, ny, 0, nx⟩ (fun a _ j => a (ny - W) j)).exec t5 with ht6
+  set t7 := (penaliseKernelYFront realTransc w dx y0 f yg ⟨0, headHi ny W, 0, nx⟩).exec t6 with ht7
+  set t8 := (penaliseKernelYBack realTransc w dx y1 f yg ⟨tailLo ny W, ny, 0, nx⟩).exec t7 with ht8
+  have e1 := (exec_bcast "x_front" f ⟨0, ny, 0, headHi nx W⟩ (fun a i _ => a i (W - 1)) s).1
+  have e2 := (exec_bcast "x_back" f ⟨0, ny, tailLo nx W, nx⟩ (fun a i _ => a i (nx - W)) t1).1
+  obtain ⟨b3, o3, _⟩ := exec_damp _ f dXF t2
+  obtain ⟨b4, o4, _⟩ := exec_damp _ f dXB' t3
+  have e5 := (exec_bcast "y_front" f ⟨0, headHi ny W, 0, nx⟩ (fun a _ j => a (W - 1) j) t4).1
+  have e6 := (exec_bcast "y_back" f ⟨tailLo ny W, ny, 0, nx⟩ (fun a _ j => a (ny - W) j) t5).1
+  obtain ⟨b7, o7, _⟩ := exec_damp _ f dYF t6
+  obtain ⟨b8, o8, _⟩ := exec_damp _ f dYB t7
+  rw [← ht1] at e1; rw [← ht2] at e2; rw [← ht3] at b3 o3; rw [← ht4] at b4 o4
+  rw [← ht5] at e5; rw [← ht6] at e6; rw [← ht7] at b7 o7; rw [← ht8] at b8 o8
+  -- after the two x copies: a value of the incoming field on an inner-edge column, or the incoming value itself
+  have h2 : ∀ a b, 0 ≤ a → a < ny → 0 ≤ b → b < nx →
+      t2 f a b = if b < W then s f a (W - 1) else if nx - W ≤ b then s f a (nx - W) else s f a b := by
+    intro a b ha0 ha1 hb0 hb1
+    rw [e2, e1]
+    simp only [applyK2, Rect2.mem, hhx, htx]
+    split_ifs <;> first | rfl | (exfalso; omega)
+  -- g := field after the x part; bounded by M on the x zone and on the two inner-edge rows
+  have hg : ∀ a b, 0 ≤ a → a < ny → 0 ≤ b → b < nx → (b < W ∨ nx - W ≤ b ∨ a = W - 1 ∨ a = ny - W) → |t4 f a b| ≤ M := by
+    intro a b ha0 ha1 hb0 hb1 hc
+    refine (b4 a b).trans ((b3 a b).trans ?_)
+    rw [h2 a b ha0 ha1 hb0 hb1]
+    split_ifs with c1 c2
+    · exact hM a (W - 1) ha0 ha1 (by omega) (by omega) (Or.inl rfl)
+    · exact hM a (nx - W) ha0 ha1 (by omega) (by omega) (Or.inr (Or.inl rfl))
+    · rcases hc with h | h | h | h
+      · exact absurd h c1
+      · exact absurd h c2
+      · exact hM a b ha0 ha1 hb0 hb1 (Or.inr (Or.inr (Or.inl h)))
+      · exact hM a b ha0 ha1 hb0 hb1 (Or.inr (Or.inr (Or.inr h)))
+  -- after the two y copies
+  have h6 : t6 f i j = if i < W then t4 f (W - 1) j else if ny - W ≤ i then t4 f (ny - W) j else t4 f i j := by
+    rw [e6, e5]
+    simp only [applyK2, Rect2.mem, hhy, hty]
+    split_ifs <;> first | rfl | (exfalso; omega)
+  refine (b8 i j).trans ((b7 i j).trans ?_)
+  rw [h6]
+  split_ifs with c1 c2
+  · exact hg (W - 1) j (by omega) (by omega) hj.1 hj.2 (Or.inr (Or.inr (Or.inl rfl)))
+  · exact hg (ny - W) j (by omega) (by omega) hj.1 hj.2 (Or.inr (Or.inr (Or.inr rfl)))
+  · rcases hzone with h | h | h | h
+    · exact absurd h c1
+    · exact absurd h c2
+    · exact hg i j hi.1 hi.2 hj.1 hj.2 (Or.inl h)
+    · exact hg i j hi.1 hi.2 hj.1 hj.2 (Or.inr (Or.inl h))
+
+end Value
+
+/-! ### program level (2D): the outermost ring is driven to zero -/
+
+section RingZero
+variable {B : Type} [DecidableEq B]
+
+/-- a damping call whose sine argument is proportional to (coordinate − corner) -/
+def IsDampLin (c : Call2 B ℝ) (f g : B) (corner : ℝ) : Prop :=
+  ∃ κ : ℝ, c.writes = [(f, fun s i j => s f i j * Real.sin (κ * (s g i j - corner)))]
+
+theorem kernels_isDampLin (w : ℕ) (dx c : ℝ) (f g : B) (r : Rect2) :
+    IsDampLin (penaliseKernelXFront realTransc w dx c f g r) f g c ∧ IsDampLin (penaliseKernelXBack realTransc w dx c f g r) f g c ∧
+    IsDampLin (penaliseKernelYFront realTransc w dx c f g r) f g c ∧ IsDampLin (penaliseKernelYBack realTransc w dx c f g r) f g c := by
+  have front : ∀ q : ℝ, (fun (s : Store2 B ℝ) i j => s f i j * Real.sin (q * Real.pi * dx⁻¹ * (-c + s g i j)))
+      = fun s i j => s f i j * Real.sin ((q * Real.pi * dx⁻¹) * (s g i j - c)) := by
+    intro q; funext s i j; congr 2; ring
+  have back : ∀ q : ℝ, (fun (s : Store2 B ℝ) i j => s f i j * Real.sin (q * Real.pi * dx⁻¹ * (c + -(s g i j))))
+      = fun s i j => s f i j * Real.sin ((-(q * Real.pi * dx⁻¹)) * (s g i j - c)) := by
+    intro q; funext s i j; congr 2; ring
+  have mk : ∀ (q : ℝ) (c1 c2 c3 c4 : Call2 B ℝ),
+      c1.writes = [(f, fun s i j => s f i j * Real.sin (q * Real.pi * dx⁻¹ * (-c + s g i j)))] →
+      c2.writes = [(f, fun s i j => s f i j * Real.sin (q * Real.pi * dx⁻¹ * (c + -(s g i j))))] →
+      c3.writes = [(f, fun s i j => s f i j * Real.sin (q * Real.pi * dx⁻¹ * (-c + s g i j)))] →
+      c4.writes = [(f, fun s i j => s f i j * Real.sin (q * Real.pi * dx⁻¹ * (c + -(s g i j))))] →
+      IsDampLin c1 f g c ∧ IsDampLin c2 f g c ∧ IsDampLin c3 f g c ∧ IsDampLin c4 f g c := by
+    intro q c1 c2 c3 c4 h1 h2 h3 h4
+    exact ⟨⟨_, by rw [h1, front q]⟩, ⟨_, by rw [h2, back q]⟩, ⟨_, by rw [h3, front q]⟩, ⟨_, by rw [h4, back q]⟩⟩
+  rcases w with _ | _ | _ | _ | _ | _ | w
+  · exact mk (1 / 12) _ _ _ _ rfl rfl rfl rfl
+  · exact mk (1 / 2) _ _ _ _ rfl rfl rfl rfl
+  · exact mk (1 / 4) _ _ _ _ rfl rfl rfl rfl
+  · exact mk (1 / 6) _ _ _ _ rfl rfl rfl rfl
+  · exact mk (1 / 8) _ _ _ _ rfl rfl rfl rfl
+  · exact mk (1 / 10) _ _ _ _ rfl rfl rfl rfl
+  · exact mk (1 / 12) _ _ _ _ rfl rfl rfl rfl
+
+theorem exec_damplin (c : Call2 B ℝ) (f g : B) (corner : ℝ) (h : IsDampLin c f g corner) (s : Store2 B ℝ) :
+    ∃ κ : ℝ, (∀ i j, c.region.mem i j → c.exec s f i j = s f i j * Real.sin (κ * (s g i j - corner))) := by
+  obtain ⟨κ, hκ⟩ := h
+  refine ⟨κ, fun i j hm => ?_⟩
+  rw [(exec_write1 c f _ hκ s).1]
+  simp only [applyK2, if_pos hm]
+
+theorem damp_zero (c : Call2 B ℝ) (f : B) (h : IsDamp c f) (s : Store2 B ℝ) (i j : ℤ) (h0 : s f i j = 0) : c.exec s f i j = 0 := by
+  have := (exec_damp c f h s).1 i j
+  rw [h0, abs_zero] at this
+  exact abs_eq_zero.mp (le_antisymm this (abs_nonneg _))
+
+/-- C19 (damping, 2D PROGRAM, outermost ring): where the coordinate array holds the corner value the generator read —
+the outermost column / row — the field is exactly zero after the damping program (any width ≥ 1, non-overlapping zones) -/
+theorem C19_damping_ring_zero_2d (w : ℕ) (hw : 1 ≤ w) (ny nx : ℤ) (hx : 2 * (w : ℤ) ≤ nx) (hy : 2 * (w : ℤ) ≤ ny)
+    (dx x0 x1 y0 y1 : ℝ) (f xg yg : B) (hfx : xg ≠ f) (hfy : yg ≠ f) (s : Store2 B ℝ) :
+    ((∀ a, 0 ≤ a → a < ny → s xg a 0 = x0) → ∀ i, 0 ≤ i → i < ny →
+        exec2 (penaliseBoundary2D realTransc w ny nx dx x0 x1 y0 y1 f xg yg) s f i 0 = 0) ∧
+    ((∀ a, 0 ≤ a → a < ny → s xg a (nx - 1) = x1) → ∀ i, 0 ≤ i → i < ny →
+        exec2 (penaliseBoundary2D realTransc w ny nx dx x0 x1 y0 y1 f xg yg) s f i (nx - 1) = 0) ∧
+    ((∀ b, 0 ≤ b → b < nx → s yg 0 b = y0) → ∀ j, 0 ≤ j → j < nx →
+        exec2 (penaliseBoundary2D realTransc w ny nx dx x0 x1 y0 y1 f xg yg) s f 0 j = 0) ∧
+    ((∀ b, 0 ≤ b → b < nx → s yg (ny - 1) b = y1) → ∀ j, 0 ≤ j → j < nx →
+        exec2 (penaliseBoundary2D realTransc w ny nx dx x0 x1 y0 y1 f xg yg) s f (ny - 1) j = 0) := by
+  have hw0 : w ≠ 0 := by omega
+  have hW : (1 : ℤ) ≤ (w : ℤ) := by exact_mod_cast hw
+  set W : ℤ := (w : ℤ) with hWdef
+  have hhx : headHi nx W = W := min_eq_left (by omega)
+  have htx : tailLo nx W = nx - W := max_eq_right (by omega)
+  have hhy : headHi ny W = W := min_eq_left (by omega)
+  have hty : tailLo ny W = ny - W := max_eq_right (by omega)
+  unfold penaliseBoundary2D
+  simp only [if_neg hw0, exec2_cons, exec2_nil]
+  obtain ⟨dXF, _, _, _⟩ := kernels_isDamp w dx x0 f xg (⟨0, ny, 0, headHi nx W⟩ : Rect2)
+  obtain ⟨_, dXB, _, _⟩ := kernels_isDamp w dx x1 f xg (⟨0, ny, tailLo nx W, nx⟩ : Rect2)
+  obtain ⟨_, _, dYF, _⟩ := kernels_isDamp w dx y0 f yg (⟨0, headHi ny W, 0, nx⟩ : Rect2)
+  obtain ⟨_, _, _, dYB⟩ := kernels_isDamp w dx y1 f yg (⟨tailLo ny W, ny, 0, nx⟩ : Rect2)
+  obtain ⟨lXF, _, _, _⟩ := kernels_isDampLin w dx x0 f xg (⟨0, ny, 0, headHi nx W⟩ : Rect2)
+  obtain ⟨_, lXB, _, _⟩ := kernels_isDampLin w dx x1 f xg (⟨0, ny, tailLo nx W, nx⟩ : Rect2)
+  obtain ⟨_, _, lYF, _⟩ := kernels_isDampLin w dx y0 f yg (⟨0, headHi ny W, 0, nx⟩ : Rect2)
+  obtain ⟨_, _, _, lYB⟩ := kernels_isDampLin w dx y1 f yg (⟨tailLo ny W, ny, 0, nx⟩ : Rect2)
+  have rXF := (penaliseKernel_regions realTransc w dx x0 f xg (⟨0, ny, 0, headHi nx W⟩ : Rect2)).1
+  have rXB := (penaliseKernel_regions realTransc w dx x1 f xg (⟨0, ny, tailLo nx W, nx⟩ : Rect2)).2.1
+  have rYF := (penaliseKernel_regions realTransc w dx y0 f yg (⟨0, headHi ny W, 0, nx⟩ : Rect2)).2.2.1
+  have rYB := (penaliseKernel_regions realTransc w dx y1 f yg (⟨tailLo ny W, ny, 0, nx⟩ : Rect2)).2.2.2
+  set t1 := (bcast2D "x_front" f ⟨0, ny, 0, headHi nx W⟩ (fun a i _ => a i (W - 1))).exec s with ht1
+  set t2 := (bcast2D "x_back" f ⟨0, ny, tailLo nx W, nx⟩ (fun a i _ => a i (nx - W))).exec t1 with ht2
+  set t3 := (penaliseKernelXFront realTransc w dx x0 f xg ⟨0, ny, 0, headHi nx W⟩).exec t2 with ht3
+  set t4 := (penaliseKernelXBack realTransc w dx x1 f xg ⟨0, ny, tailLo nx W, nx⟩).exec t3 with ht4
+  set t5 := (bcast2D "y_front" f ⟨0, headHi ny W, 0, nx⟩ (fun a _ j => a (W - 1) j)).exec t4 with ht5
+  set t6 := (bcast2D "y_back" f ⟨tailLo ny W, ny, 0, nx⟩ (fun a _ j => a (ny - W) j)).exec t5 with ht6
+  set t7 := (penaliseKernelYFront realTransc w dx y0 f yg ⟨0, headHi ny W, 0, nx⟩).exec t6 with ht7
+  set t8 := (penaliseKernelYBack realTransc w dx y1 f yg ⟨tailLo ny W, ny, 0, nx⟩).exec t7 with ht8
+  -- frames: the coordinate arrays are never written
+  have k1 : ∀ b, b ≠ f → t1 b = s b := (exec_bcast _ f _ _ s).2
+  have k2 : ∀ b, b ≠ f → t2 b = s b := fun b hb => ((exec_bcast _ f _ _ t1).2 b hb).trans (k1 b hb)
+  have k3 : ∀ b, b ≠ f → t3 b = s b := fun b hb => ((exec_damp _ f dXF t2).2.2 b hb).trans (k2 b hb)
+  have k4 : ∀ b, b ≠ f → t4 b = s b := fun b hb => ((exec_damp _ f dXB t3).2.2 b hb).trans (k3 b hb)
+  have k5 : ∀ b, b ≠ f → t5 b = s b := fun b hb => ((exec_bcast _ f _ _ t4).2 b hb).trans (k4 b hb)
+  have k6 : ∀ b, b ≠ f → t6 b = s b := fun b hb => ((exec_bcast _ f _ _ t5).2 b hb).trans (k5 b hb)
+  have k7 : ∀ b, b ≠ f → t7 b = s b := fun b hb => ((exec_damp _ f dYF t6).2.2 b hb).trans (k6 b hb)
+  have e5 : t5 f = applyK2 ⟨0, headHi ny W, 0, nx⟩ (t4 f) (fun _ j => t4 f (W - 1) j) := (exec_bcast "y_front" f _ _ t4).1
+  have e6 : t6 f = applyK2 ⟨tailLo ny W, ny, 0, nx⟩ (t5 f) (fun _ j => t5 f (ny - W) j) := (exec_bcast "y_back" f _ _ t5).1
+  -- a whole column that is zero after the x part stays zero through the y part
+  have colKeep : ∀ j, 0 ≤ j → j < nx → (∀ a, 0 ≤ a → a < ny → t4 f a j = 0) → ∀ i, 0 ≤ i → i < ny → t8 f i j = 0 := by
+    intro j hj0 hj1 hcol i hi0 hi1
+    have h5 : ∀ a, 0 ≤ a → a < ny → t5 f a j = 0 := by
+      intro a ha0 ha1
+      rw [e5]; simp only [applyK2, Rect2.mem, hhy]
+      split_ifs
+      · exact hcol (W - 1) (by omega) (by omega)
+      · exact hcol a ha0 ha1
+    have h6 : t6 f i j = 0 := by
+      rw [e6]; simp only [applyK2, Rect2.mem, hty]
+      split_ifs
+      · exact h5 (ny - W) (by omega) (by omega)
+      · exact h5 i hi0 hi1
+    exact damp_zero _ f dYB t7 i j (damp_zero _ f dYF t6 i j h6)
+  refine ⟨?_, ?_, ?_, ?_⟩
+  · intro hxg i hi0 hi1
+    apply colKeep 0 (by omega) (by omega) _ i hi0 hi1
+    intro a ha0 ha1
+    obtain ⟨κ, hκ⟩ := exec_damplin _ f xg x0 lXF t2
+    have h3 : t3 f a 0 = 0 := by
+      rw [ht3, hκ a 0 (by rw [rXF]; simp only [Rect2.mem, hhx]; omega), k2 xg hfx, hxg a ha0 ha1]
+      simp
+    exact damp_zero _ f dXB t3 a 0 h3
+  · intro hxg i hi0 hi1
+    apply colKeep (nx - 1) (by omega) (by omega) _ i hi0 hi1
+    intro a ha0 ha1
+    obtain ⟨κ, hκ⟩ := exec_damplin _ f xg x1 lXB t3
+    rw [ht4, hκ a (nx - 1) (by rw [rXB]; simp only [Rect2.mem, htx]; omega), k3 xg hfx, hxg a ha0 ha1]
+    simp
+  · intro hyg j hj0 hj1
+    obtain ⟨κ, hκ⟩ := exec_damplin _ f yg y0 lYF t6
+    have h7 : t7 f 0 j = 0 := by
+      rw [ht7, hκ 0 j (by rw [rYF]; simp only [Rect2.mem, hhy]; omega), k6 yg hfy, hyg j hj0 hj1]
+      simp
+    exact damp_zero _ f dYB t7 0 j h7
+  · intro hyg j hj0 hj1
+    obtain ⟨κ, hκ⟩ := exec_damplin _ f yg y1 lYB t7
+    rw [ht8, hκ (ny - 1) j (by rw [rYB]; simp only [Rect2.mem, hty]; omega), k7 yg hfy, hyg j hj0 hj1]
+    simp
+
+end RingZero
+
+/-! ### program level (3D): the value claim -/
+
+section Value3
+variable {B : Type} [DecidableEq B]
+
+def IsDamp3 (c : Call3 B ℝ) (f : B) : Prop :=
+  ∃ θ : Store3 B ℝ → ℤ → ℤ → ℤ → ℝ, c.writes = [(f, fun s i j k => s f i j k * Real.sin (θ s i j k))]
+
+theorem kernels_isDamp3 (w : ℕ) (dx c : ℝ) (f g : B) (r : Rect3) :
+    IsDamp3 (call_penalise_field_x_front_boundary_stencil_3d_w realTransc w dx c f g r) f ∧
+    IsDamp3 (call_penalise_field_x_back_boundary_stencil_3d_w realTransc w dx c f g r) f ∧
+    IsDamp3 (call_penalise_field_y_front_boundary_stencil_3d_w realTransc w dx c f g r) f ∧
+    IsDamp3 (call_penalise_field_y_back_boundary_stencil_3d_w realTransc w dx c f g r) f ∧
+    IsDamp3 (call_penalise_field_z_front_boundary_stencil_3d_w realTransc w dx c f g r) f ∧
+    IsDamp3 (call_penalise_field_z_back_boundary_stencil_3d_w realTransc w dx c f g r) f := by
+  rcases w with _ | _ | _ | _ | _ | _ | w <;> exact ⟨⟨_, rfl⟩, ⟨_, rfl⟩, ⟨_, rfl⟩, ⟨_, rfl⟩, ⟨_, rfl⟩, ⟨_, rfl⟩⟩
+
+theorem exec3_write1 (c : Call3 B ℝ) (f : B) (W : Store3 B ℝ → F3 ℝ) (h : c.writes = [(f, W)]) (s : Store3 B ℝ) :
+    c.exec s f = applyK3 c.region (s f) (W s) ∧ ∀ b, b ≠ f → c.exec s b = s b := by
+  constructor
+  · simp [Call3.exec, h, Store3.set]
+  · intro b hb; simp [Call3.exec, h, Store3.set, hb]
+
+theorem exec_damp3 (c : Call3 B ℝ) (f : B) (h : IsDamp3 c f) (s : Store3 B ℝ) :
+    (∀ i j k, |c.exec s f i j k| ≤ |s f i j k|) ∧ (∀ b, b ≠ f → c.exec s b = s b) := by
+  obtain ⟨θ, hθ⟩ := h
+  obtain ⟨h1, h2⟩ := exec3_write1 c f _ hθ s
+  refine ⟨?_, h2⟩
+  intro i j k
+  rw [h1]; simp only [applyK3]
+  split_ifs
+  · exact abs_mul_sin_le _ _
+  · exact le_rfl
+
+theorem exec_bcast3 (name : String) (f : B) (r : Rect3) (src : F3 ℝ → F3 ℝ) (s : Store3 B ℝ) :
+    (bcast3D name f r src).exec s f = applyK3 r (s f) (src (s f)) :=
+  (exec3_write1 (bcast3D name f r src) f (fun s => src (s f)) rfl s).1
+
+/-- C19 (damping, 3D PROGRAM, value claim): for every width `w ≥ 1` with non-overlapping zones, if the incoming field is
+bounded by `M` on the six inner-edge planes of the zone, every cell of the zone is bounded by `M` afterwards — whatever
+the coordinate arrays, spacing and corner arguments are -/
+theorem C19_damping_zone_bounded_3d (w : ℕ) (hw : 1 ≤ w) (nz ny nx : ℤ) (hx : 2 * (w : ℤ) ≤ nx) (hy : 2 * (w : ℤ) ≤ ny) (hz : 2 * (w : ℤ) ≤ nz)
+    (dx : ℝ) (c : Corners3 ℝ) (f xg yg zg : B) (s : Store3 B ℝ) (M : ℝ)
+    (hM : ∀ i j k, 0 ≤ i → i < nz → 0 ≤ j → j < ny → 0 ≤ k → k < nx →
+      (k = w - 1 ∨ k = nx - w ∨ j = w - 1 ∨ j = ny - w ∨ i = w - 1 ∨ i = nz - w) → |s f i j k| ≤ M)
+    (i j k : ℤ) (hi : 0 ≤ i ∧ i < nz) (hj : 0 ≤ j ∧ j < ny) (hk : 0 ≤ k ∧ k < nx)
+    (hzone : i < w ∨ nz - w ≤ i ∨ j < w ∨ ny - w ≤ j ∨ k < w ∨ nx - w ≤ k) :
+    |exec3 (penaliseBoundary3D realTransc w nz ny nx dx c f xg yg zg) s f i j k| ≤ M := by
+  have hw0 : w ≠ 0 := by omega
+  have hW : (1 : ℤ) ≤ (w : ℤ) := by exact_mod_cast hw
+  set W : ℤ := (w : ℤ) with hWdef
+  have hhx : headHi nx W = W := min_eq_left (by omega)
+  have htx : tailLo nx W = nx - W := max_eq_right (by omega)
+  have hhy : headHi ny W = W := min_eq_left (by omega)
+  have hty : tailLo ny W = ny - W := max_eq_right (by omega)
+  have hhz : headHi nz W = W := min_eq_left (by omega)
+  have htz : tailLo nz W = nz - W := max_eq_right (by omega)
+  unfold penaliseBoundary3D
+  simp only [if_neg hw0, exec3_cons, exec3_nil]
+  obtain ⟨dXF, _, _, _, _, _⟩ := kernels_isDamp3 w dx c.x0 f xg (⟨0, nz, 0, ny, 0, headHi nx W⟩ : Rect3)
+  obtain ⟨_, dXB, _, _, _, _⟩ := kernels_isDamp3 w dx c.x1 f xg (⟨0, nz, 0, ny, tailLo nx W, nx⟩ : Rect3)
+  obtain ⟨_, _, dYF, _, _, _⟩ := kernels_isDamp3 w dx c.y0 f yg (⟨0, nz, 0, headHi ny W, 0, nx⟩ : Rect3)
+  obtain ⟨_, _, _, dYB, _, _⟩ := kernels_isDamp3 w dx c.y1 f yg (⟨0, nz, tailLo ny W, ny, 0, nx⟩ : Rect3)
+  obtain ⟨_, _, _, _, dZF, _⟩ := kernels_isDamp3 w dx c.z0 f zg (⟨0, headHi nz W, 0, ny, 0, nx⟩ : Rect3)
+  obtain ⟨_, _, _, _, _, dZB⟩ := kernels_isDamp3 w dx c.z1 f zg (⟨tailLo nz W, nz, 0, ny, 0, nx⟩ : Rect3)
+  set t1 := (bcast3D "x_front" f ⟨0, nz, 0, ny, 0, headHi nx W⟩ (fun a i j _ => a i j (W - 1))).exec s with ht1
+  set t2 := (bcast3D "x_back" f ⟨0, nz, 0, ny, tailLo nx W, nx⟩ (fun a i j _ => a i j (nx - W))).exec t1 with ht2
+  set t3 := (call_penalise_field_x_front_boundary_stencil_3d_w realTransc w dx c.x0 f xg ⟨0, nz, 0, ny, 0, headHi nx W⟩).exec t2 with ht3
+  set t4 := (call_penalise_field_x_back_boundary_stencil_3d_w realTransc w dx c.x1 f xg ⟨0, nz, 0, ny, tailLo nx W, nx⟩).exec t3 with ht4
+  set t5 := (bcast3D "y_front" f ⟨0, nz, 0, headHi ny W, 0, nx⟩ (fun a i _ k => a i (W - 1) k)).exec t4 with ht5
+  set t6 := (bcast3D "y_back" f ⟨0, nz, tailLo ny W, ny, 0, nx⟩ (fun a i _ k => a i (ny - W) k)).exec t5 with ht6
+  set t7 := (call_penalise_field_y_front_boundary_stencil_3d_w realTransc w dx c.y0 f yg ⟨0, nz, 0, headHi ny W, 0, nx⟩).exec t6 with ht7
+  set t8 := (call_penalise_field_y_back_boundary_stencil_3d_w realTransc w dx c.y1 f yg ⟨0, nz, tailLo ny W, ny, 0, nx⟩).exec t7 with ht8
+  set t9 := (bcast3D "z_front" f ⟨0, headHi nz W, 0, ny, 0, nx⟩ (fun a _ j k => a (W - 1) j k)).exec t8 with ht9
+  set t10 := (bcast3D "z_back" f ⟨tailLo nz W, nz, 0, ny, 0, nx⟩ (fun a _ j k => a (nz - W) j k)).exec t9 with ht10
+  set t11 := (call_penalise_field_z_front_boundary_stencil_3d_w realTransc w dx c.z0 f zg ⟨0, headHi nz W, 0, ny, 0, nx⟩).exec t10 with ht11
+  set t12 := (call_penalise_field_z_back_boundary_stencil_3d_w realTransc w dx c.z1 f zg ⟨tailLo nz W, nz, 0, ny, 0, nx⟩).exec t11 with ht12
+  have e1 := exec_bcast3 "x_front" f ⟨0, nz, 0, ny, 0, headHi nx W⟩ (fun a i j _ => a i j (W - 1)) s
+  have e2 := exec_bcast3 "x_back" f ⟨0, nz, 0, ny, tailLo nx W, nx⟩ (fun a i j _ => a i j (nx - W)) t1
+  have b3 := (exec_damp3 _ f dXF t2).1
+  have b4 := (exec_damp3 _ f dXB t3).1
+  have e5 := exec_bcast3 "y_front" f ⟨0, nz, 0, headHi ny W, 0, nx⟩ (fun a i _ k => a i (W - 1) k) t4
+  have e6 := exec_bcast3 "y_back" f ⟨0, nz, tailLo ny W, ny, 0, nx⟩ (fun a i _ k => a i (ny - W) k) t5
+  have b7 := (exec_damp3 _ f dYF t6).1
+  have b8 := (exec_damp3 _ f dYB t7).1
+  have e9 := exec_bcast3 "z_front" f ⟨0, headHi nz W, 0, ny, 0, nx⟩ (fun a _ j k => a (W - 1) j k) t8
+  have e10 := exec_bcast3 "z_back" f ⟨tailLo nz W, nz, 0, ny, 0, nx⟩ (fun a _ j k => a (nz - W) j k) t9
+  have b11 := (exec_damp3 _ f dZF t10).1
+  have b12 := (exec_damp3 _ f dZB t11).1
+  rw [← ht1] at e1; rw [← ht2] at e2; rw [← ht3] at b3; rw [← ht4] at b4
+  rw [← ht5] at e5; rw [← ht6] at e6; rw [← ht7] at b7; rw [← ht8] at b8
+  rw [← ht9] at e9; rw [← ht10] at e10; rw [← ht11] at b11; rw [← ht12] at b12
+  -- x part
+  have h2 : ∀ a b d, 0 ≤ a → a < nz → 0 ≤ b → b < ny → 0 ≤ d → d < nx →
+      t2 f a b d = if d < W then s f a b (W - 1) else if nx - W ≤ d then s f a b (nx - W) else s f a b d := by
+    intro a b d _ _ _ _ _ _
+    rw [e2, e1]
+    simp only [applyK3, Rect3.mem, hhx, htx]
+    split_ifs <;> first | rfl | (exfalso; omega)
+  have hg : ∀ a b d, 0 ≤ a → a < nz → 0 ≤ b → b < ny → 0 ≤ d → d < nx →
+      (d < W ∨ nx - W ≤ d ∨ b = W - 1 ∨ b = ny - W ∨ a = W - 1 ∨ a = nz - W) → |t4 f a b d| ≤ M := by
+    intro a b d ha0 ha1 hb0 hb1 hd0 hd1 hc
+    refine (b4 a b d).trans ((b3 a b d).trans ?_)
+    rw [h2 a b d ha0 ha1 hb0 hb1 hd0 hd1]
+    split_ifs with c1 c2
+    · exact hM a b (W - 1) ha0 ha1 hb0 hb1 (by omega) (by omega) (Or.inl rfl)
+    · exact hM a b (nx - W) ha0 ha1 hb0 hb1 (by omega) (by omega) (Or.inr (Or.inl rfl))
+    · rcases hc with h | h | h | h | h | h
+      · exact absurd h c1
+      · exact absurd h c2
+      · exact hM a b d ha0 ha1 hb0 hb1 hd0 hd1 (Or.inr (Or.inr (Or.inl h)))
+      · exact hM a b d ha0 ha1 hb0 hb1 hd0 hd1 (Or.inr (Or.inr (Or.inr (Or.inl h))))
+      · exact hM a b d ha0 ha1 hb0 hb1 hd0 hd1 (Or.inr (Or.inr (Or.inr (Or.inr (Or.inl h)))))
+      · exact hM a b d ha0 ha1 hb0 hb1 hd0 hd1 (Or.inr (Or.inr (Or.inr (Or.inr (Or.inr h)))))
+  -- y part
+  have h6 : ∀ a b d, 0 ≤ a → a < nz → 0 ≤ b → b < ny → 0 ≤ d → d < nx →
+      t6 f a b d = if b < W then t4 f a (W - 1) d else if ny - W ≤ b then t4 f a (ny - W) d else t4 f a b d := by
+    intro a b d _ _ _ _ _ _
+    rw [e6, e5]
+    simp only [applyK3, Rect3.mem, hhy, hty]
+    split_ifs <;> first | rfl | (exfalso; omega)
+  have hh : ∀ a b d, 0 ≤ a → a < nz → 0 ≤ b → b < ny → 0 ≤ d → d < nx →
+      (d < W ∨ nx - W ≤ d ∨ b < W ∨ ny - W ≤ b ∨ a = W - 1 ∨ a = nz - W) → |t8 f a b d| ≤ M := by
+    intro a b d ha0 ha1 hb0 hb1 hd0 hd1 hc
+    refine (b8 a b d).trans ((b7 a b d).trans ?_)
+    rw [h6 a b d ha0 ha1 hb0 hb1 hd0 hd1]
+    split_ifs with c1 c2
+    · exact hg a (W - 1) d ha0 ha1 (by omega) (by omega) hd0 hd1 (Or.inr (Or.inr (Or.inl rfl)))
+    · exact hg a (ny - W) d ha0 ha1 (by omega) (by omega) hd0 hd1 (Or.inr (Or.inr (Or.inr (Or.inl rfl))))
+    · rcases hc with h | h | h | h | h | h
+      · exact hg a b d ha0 ha1 hb0 hb1 hd0 hd1 (Or.inl h)
+      · exact hg a b d ha0 ha1 hb0 hb1 hd0 hd1 (Or.inr (Or.inl h))
+      · exact absurd h c1
+      · exact absurd h c2
+      · exact hg a b d ha0 ha1 hb0 hb1 hd0 hd1 (Or.inr (Or.inr (Or.inr (Or.inr (Or.inl h)))))
+      · exact hg a b d ha0 ha1 hb0 hb1 hd0 hd1 (Or.inr (Or.inr (Or.inr (Or.inr (Or.inr h)))))
+  -- z part
+  have h10 : t10 f i j k = if i < W then t8 f (W - 1) j k else if nz - W ≤ i then t8 f (nz - W) j k else t8 f i j k := by
+    rw [e10, e9]
+    simp only [applyK3, Rect3.mem, hhz, htz]
+    split_ifs <;> first | rfl | (exfalso; omega)
+  refine (b12 i j k).trans ((b11 i j k).trans ?_)
+  rw [h10]
+  split_ifs with c1 c2
+  · exact hh (W - 1) j k (by omega) (by omega) hj.1 hj.2 hk.1 hk.2 (Or.inr (Or.inr (Or.inr (Or.inr (Or.inl rfl)))))
+  · exact hh (nz - W) j k (by omega) (by omega) hj.1 hj.2 hk.1 hk.2 (Or.inr (Or.inr (Or.inr (Or.inr (Or.inr rfl)))))
+  · rcases hzone with h | h | h | h | h | h
+    · exact absurd h c1
+    · exact absurd h c2
+    · exact hh i j k hi.1 hi.2 hj.1 hj.2 hk.1 hk.2 (Or.inr (Or.inr (Or.inl h)))
+    · exact hh i j k hi.1 hi.2 hj.1 hj.2 hk.1 hk.2 (Or.inr (Or.inr (Or.inr (Or.inl h))))
+    · exact hh i j k hi.1 hi.2 hj.1 hj.2 hk.1 hk.2 (Or.inl h)
+    · exact hh i j k hi.1 hi.2 hj.1 hj.2 hk.1 hk.2 (Or.inr (Or.inl h))
+
+end Value3
+
 end Sopht.Props.C19
